@@ -658,7 +658,7 @@ func (c *client) handlePrepare(raw *frame.RawFrame, msg *message.Prepare, body *
 		} else {
 			switch s := stmt.(type) {
 			case *parser.SelectStatement:
-				if systemColumns, ok := parser.SystemColumnsByName[s.Table]; ok {
+				if systemColumns, ok := c.systemColumns(s.Table); ok {
 					if columns, err := parser.FilterColumns(s, systemColumns); err != nil {
 						c.send(hdr, &message.Invalid{ErrorMessage: err.Error()})
 					} else {
@@ -785,14 +785,26 @@ func (c *client) filterSystemPeerValues(stmt *parser.SelectStatement, filtered [
 	})
 }
 
+// systemColumns returns the columns of a virtual system table as they are presented for the connected backend. It's
+// used both when such a query is prepared and when it's answered so that the two always agree.
+func (c *client) systemColumns(table string) ([]*message.ColumnMetadata, bool) {
+	if len(c.proxy.cluster.Info.DSEVersion) > 0 {
+		switch table {
+		case "local":
+			return parser.DseSystemLocalColumns, true
+		case "peers":
+			return parser.DseSystemPeersColumns, true
+		}
+	}
+	columns, ok := parser.SystemColumnsByName[table]
+	return columns, ok
+}
+
 func (c *client) interceptSystemQuery(hdr *frame.Header, stmt interface{}) {
 	switch s := stmt.(type) {
 	case *parser.SelectStatement:
 		if s.Table == "local" {
-			localColumns := parser.SystemLocalColumns
-			if len(c.proxy.cluster.Info.DSEVersion) > 0 {
-				localColumns = parser.DseSystemLocalColumns
-			}
+			localColumns, _ := c.systemColumns(s.Table)
 			if columns, err := parser.FilterColumns(s, localColumns); err != nil {
 				c.send(hdr, &message.Invalid{ErrorMessage: err.Error()})
 			} else if row, err := c.filterSystemLocalValues(s, columns); err != nil {
@@ -807,10 +819,7 @@ func (c *client) interceptSystemQuery(hdr *frame.Header, stmt interface{}) {
 				})
 			}
 		} else if s.Table == "peers" {
-			peersColumns := parser.SystemPeersColumns
-			if len(c.proxy.cluster.Info.DSEVersion) > 0 {
-				peersColumns = parser.DseSystemPeersColumns
-			}
+			peersColumns, _ := c.systemColumns(s.Table)
 			if columns, err := parser.FilterColumns(s, peersColumns); err != nil {
 				c.send(hdr, &message.Invalid{ErrorMessage: err.Error()})
 			} else {
@@ -837,7 +846,7 @@ func (c *client) interceptSystemQuery(hdr *frame.Header, stmt interface{}) {
 					})
 				}
 			}
-		} else if columns, ok := parser.SystemColumnsByName[s.Table]; ok {
+		} else if columns, ok := c.systemColumns(s.Table); ok {
 			c.send(hdr, &message.RowsResult{
 				Metadata: &message.RowsMetadata{
 					ColumnCount: int32(len(columns)),
